@@ -329,6 +329,10 @@ class DictDecoder:
             # field can support any object return the value as it is
             return value
 
+        if value is None and var.nillable and not var.tokens:
+            # An explicit null of a nillable field is nil, not the default value
+            return None
+
         if collections.is_array(value):
             # Tokens of an immutable model are encoded as a tuple
             value = list(value)
